@@ -133,11 +133,16 @@ PROFILES = {
         c(Ops=CORE1, MaxSeq=5),
         [sim(50, 24, MaxSeq=16, MaxTables=5, MaxHist=20, Ops=CORE1 | {"ingest"}, WriteBias=3),
          edges(20, 2000, Ops=CORE1, MaxSeq=5, MinLen=8),
-         drv(24, 160, dict(DRIVE_W, reopen=2))],
+         drv(24, 160, dict(DRIVE_W, reopen=2)),
+         # reopen in the middle of a multi-level structure with several overlapping L0 runs
+         drv(12, 160, dict(write=10, flush=5, leveled=3, reopen=2),
+             leveled_params=[(2, 1), (3, 1), (4, 1), (2, 150), (3, 150)])],
         c(Ops=CORE1 | {"ingest"}, MaxSeq=5, MaxTables=4),
         [sim(150, 30, Keys={1, 2, 3}, MaxSeq=24, MaxTables=6, MaxHist=30, Ops=CORE_OPS | {"ingest"}, WriteBias=4),
          edges(6, 80000, timeout=2400, Ops=CORE1, MaxSeq=6, MinLen=9),
-         drv(120, 300, dict(DRIVE_W, reopen=2))],
+         drv(120, 300, dict(DRIVE_W, reopen=2)),
+         drv(60, 300, dict(write=10, flush=5, leveled=3, reopen=2),
+             leveled_params=[(2, 1), (3, 1), (4, 1), (2, 150), (3, 150)])],
         blobs=[None, None, None, BLOBS[1], BLOBS[0], BLOBS[7]], val_alphas=[0, 1, 2]),
     # C07 structure of every published version, metadata
     "C07": tree_profile(
